@@ -31,7 +31,11 @@ ASSUMPTIONS = [
     "after the loop has ended handle_client logs sum(response_times) / len(response_times): ZeroDivisionError for a connection on "
     "which no request was handled; outside the property (the loop has ended), counted in the evidence notes",
     "kernel TCP / unix-socket segmentation and flow control are represented by feed_data chunking and in-memory pipes with seeded "
-    "piece sizes and virtual delays",
+    "piece sizes and virtual delays; a writer above its high-water mark by a scripted StreamWriter whose drain() blocks between `stall` and "
+    "`resume` (what was handed to write() counts as queued); close() while the writer is stalled is not scripted in memory - that is what "
+    "the real-socket runs cover (tail of a burst in the write buffer at close(), peer reading up to 5 s late)",
+    "real sockets: the peer's pause (2.5 s quick; 0.2 / 1.2 / 2.5 / 5 s thorough) stands for 'the peer picks the data up later'; an "
+    "implementation whose close() gives up only after more than 5 s is not distinguished from one that waits",
 ]
 
 
@@ -1609,7 +1613,7 @@ def replay(ctx, payload):
 
 
 MANIFEST = {
-    "level_text": ("Lean 4 theorems (34, kernel-checked, standard axioms only) over (a) the line-framing oracle (hex text + newline): content "
+    "level_text": ("Lean 4 theorems (37, kernel-checked, standard axioms only) over (a) the line-framing oracle (hex text + newline): content "
                    "round trip for all byte strings, segmentation independence for every chunking, one message per read, a blocked "
                    "read consumes nothing at every prefix of a line, end-of-stream never yields a message; (b) the CLIENT as a whole "
                    "execution (Model/LinesExec: cstep / crun over feed / eof / read / write / request / close): client_trace_spec - for "
@@ -1618,7 +1622,9 @@ MANIFEST = {
                    "(read_pending_iff, read_eos_iff), in order and each once (client_reads_in_order, client_drained, "
                    "client_delivers_messages), a timed-out read anywhere in any execution changes nothing "
                    "(timed_out_read_consumes_nothing); write emits exactly hex + newline for every length (write_emits_exactly, "
-                   "enc_length), request = write; read; (c) the SERVER loop handle_client around a handler that answers / stays silent / "
+                   "enc_length), request = write; read; the write side under flow control (fstep / frun: the writer stalls and resumes "
+                   "anywhere): failed_write_half_consumes_nothing - a write / request that fails in its write half queues its line and "
+                   "consumes nothing, all reads return what they return without flow control (failed_request_then_read); (c) the SERVER loop handle_client around a handler that answers / stays silent / "
                    "raises: one reply line per answered request, none for an unanswered one, in order, for any decodable spelling "
                    "(server_replies_in_order), what ends the loop and that nothing after it is served (server_loop_ends, "
                    "server_empty_line_ends, server_dead_after_end), segmentation independence (server_any_segmentation); (d) both "
@@ -1633,7 +1639,12 @@ MANIFEST = {
                    "every position; sequences with write / request / close; messages of 1, 2, 4094, 4095, 4096, 20000 bytes and every "
                    "first byte value; the server loop chunk by chunk with its end reason and unread bytes; real client <-> real server "
                    "loop over in-memory pipes with seeded segmentation and delays in both directions, pipelined and lock-step, against "
-                   "the model's exchange and against a real RandomUDSServer's recorded replies."),
+                   "the model's exchange and against a real RandomUDSServer's recorded replies; operation sequences over a scripted "
+                   "StreamWriter whose drain() blocks (write half of an exchange fails by the transport's timeout or the caller's deadline "
+                   "while messages from the peer are buffered / arrive later); over real localhost TCP and unix sockets: a burst, then "
+                   "close(), with a peer that reads late - a small burst, and a burst of 4095-byte messages beyond the kernel buffers whose "
+                   "tail is still in the client's write buffer at close() with a peer that starts reading after 2.5 s (0.2 .. 5 s thorough); "
+                   "an exchange whose write half times out under real flow control, then reads."),
     "level_note": ("Trusted: Lean kernel (axioms propext, Quot.sound, Classical.choice), asyncio.StreamReader.readline / wait_for "
                    "contract, binascii, the AST translators, the harness; the reader is modelled without its 64 KiB line limit "
                    "(obligation: no limit is passed, the default covers the property's range); kernel segmentation is represented by "
